@@ -115,6 +115,9 @@ impl Property for C01 {
             Tier::Thorough => Budget { cases: 120_000, shards: 16, min_len: 24, max_len: 260 },
         }
     }
+    fn fuzz_targets(&self) -> Vec<(&'static str, u64, usize)> {
+        vec![("prop", 400_000, 260)]
+    }
     fn rule(&self) -> String {
         "bytes -> (phase, 1-3 Direct/Reject/Current rules with threshold from a boundary menu and stat_interval_ms from the three geometry classes default/reuse/private, 5-80 steps of clock advance (menu incl. exact bucket boundaries, boundary+-1, interval, interval+-1, 3x interval, >10 s) + request(batch 0..6) or exit(any open entry)) via proptest vec<u8>; oracle: admit <=> for every rule, tokens admitted in the rule's bucket-aligned window + n <= threshold (computed from the admitted log by definition); non-trivial = >=1 admission, >=1 rejection and >=1 admission after the clock crossed a bucket boundary since the previous admission; distinct = distinct decoded cases (hash of the decoded structure)".into()
     }
